@@ -1,12 +1,50 @@
-import json,re
-seedtbl=open('/verif/bin/seedtable.md').read()
-kf=json.load(open('/verif/KNOWN_FINDINGS.json'))['findings']
-fixed=[f for f in kf if f['status']=='fixed']; openf=[f for f in kf if f['status']=='open']
-fixlines='\n'.join('* `%s` — %s'%(f.get('commit','?'), re.sub(r'^fixed: property=\S+ \S+ ','',f['what'])) + ' (%s)'%f['property'] for f in fixed)
-openlines='\n'.join('* **%s** (%s): %s — class `%s`'%(f['id'],f['property'],f['what'],f['class']) for f in openf)
-part=open('/verif/bin/design_part1.md').read()
-part=part.replace('@SEEDTBL@',seedtbl).replace('@OPEN@',openlines).replace('@FIXED@',fixlines).replace('@NFIXED@',str(len(fixed)))
-old=open('/verif/DESIGN.md').read()
-i=old.index('Contents\n')
-open('/verif/DESIGN.md','w').write(part+old[i:])
-print(len(part.split('\n')))
+#!/usr/bin/env python3
+"""Regenerates Part I of DESIGN.md from bin/design_part1.md, the seeded/ directory and KNOWN_FINDINGS.json."""
+import json, re, glob, os
+rows = []
+for d in sorted(glob.glob('/verif/seeded/*')):
+    mp = d + '/meta.json'
+    if not os.path.exists(mp):
+        continue
+    m = json.load(open(mp))
+    name = os.path.basename(d)
+    prop = name.split('-')[0]
+    desc = ''
+    if os.path.exists(d + '/description.md'):
+        desc = open(d + '/description.md').read()
+    elif m.get('needs'):
+        desc = m['needs']
+    desc = re.sub(r'\s+', ' ', desc.strip()).replace('|', '/')[:230]
+    checks = m.get('checks') or {}
+    caught_by = []
+    for p, c in checks.items():
+        if c.get('exit') == 1:
+            summ = ' '.join(c.get('summary') or [])
+            mech = []
+            pr = re.findall(r"\('proof', '([^ ']+)", summ)
+            if pr: mech.append('proof obligation ' + pr[0])
+            co = re.findall(r"\('correspondence', '([^']+)'", summ)
+            if co: mech.append('correspondence ' + co[0])
+            mo = re.search(r'oracle_failures=(\d+)', summ)
+            if mo and int(mo.group(1)) > 0: mech.append('oracle')
+            caught_by.append('%s: %s' % (p, ', '.join(mech) or 'check'))
+    own = checks.get(prop, {})
+    if own.get('exit') == 1:
+        caught = 'yes'
+    elif caught_by:
+        caught = 'by ' + '/'.join(x.split(':')[0] for x in caught_by)
+    else:
+        caught = 'NO'
+    by = '; '.join(caught_by) if caught_by else re.sub(r'\s+', ' ', (m.get('note') or ''))[:220]
+    rows.append('| %s | %s | %s | %s |' % (name, desc, caught, by))
+seedtbl = '\n'.join(rows)
+kf = json.load(open('/verif/KNOWN_FINDINGS.json'))['findings']
+fixed = [f for f in kf if f['status'] == 'fixed']; openf = [f for f in kf if f['status'] == 'open']
+fixlines = '\n'.join('* `%s` — %s (%s)' % (f.get('commit', '?'), re.sub(r'^fixed: property=\S+ \S+ ', '', f['what']), f['property']) for f in fixed)
+openlines = '\n'.join('* **%s** (%s): %s — class `%s`' % (f['id'], f['property'], f['what'], f['class']) for f in openf)
+part = open('/verif/bin/design_part1.md').read()
+part = part.replace('@SEEDTBL@', seedtbl).replace('@OPEN@', openlines).replace('@FIXED@', fixlines).replace('@NFIXED@', str(len(fixed))).replace('@NSEEDS@', str(len(rows)))
+old = open('/verif/DESIGN.md').read()
+i = old.index('Contents\n')
+open('/verif/DESIGN.md', 'w').write(part + old[i:])
+print(len(rows), 'seeds;', len(fixed), 'fixed;', len(openf), 'open')
